@@ -61,6 +61,11 @@ def cb_corpus():
                        var("T", [A("regex", "t+", cbk="unit_bool_or", cb="|lex| { crate::cb::unit_bool(lex) } || true")])]})
     D.append({"id": "cb9", "utf8": True, "logos": E1, "tags": ["role:cb"], "subs": [], "skips": [],
               "vars": [var("R", [A("regex", "r+", cbk="val_t_index", cb="|lex| [crate::cb::val_t(lex), 7][0] + 300")], "u32"), var("W", [A("regex", "[a-q]", cbk="unit_unit")])]})
+    D.append({"id": "cb10", "utf8": True, "logos": E1, "tags": ["role:cb"], "subs": [], "skips": [A("skip", " ")],
+              "vars": [var("U", [A("regex", "u+", cbk="val_t_tuple", cb="|lex| (crate::cb::val_t(lex), 7u8)")], "(u32, u8)"),
+                       var("M", [A("regex", "m+", cbk="val_t_match", cb="|lex| match crate::cb::val_t(lex) { n => n } + 400")], "u32"),
+                       var("I", [A("regex", "i+", cbk="val_t_if", cb="|lex| if true { crate::cb::val_t(lex) } else { 0 } + 500")], "u32"),
+                       var("C", [A("regex", "c+", cbk="val_t_mcall", cb="|lex| match crate::cb::val_t(lex) { n => n }.wrapping_add(600)")], "u32")]})
     return D
 
 
